@@ -1061,6 +1061,14 @@ def _run_hc(info: SchemaInfo, sg, items, objs_spec) -> str:
         elif kind == "assign":
             vals = [objs[int(x)] for x in op[3:]]
             setattr(src, name, tuple(vals) if info.kinds[f] == "set" else list(vals))
+        elif kind == "assignSelf":   # `o.f = o.f`: the assigned value is the field's own live container
+            setattr(src, name, getattr(src, name))
+        elif kind == "iadd":         # `o.f += [x…]` / `o.f |= {x…}`: in-place operator, then the container is assigned
+            vals = [objs[int(x)] for x in op[3:]]
+            if info.kinds[f] == "set":
+                exec("a.%s |= v" % name, {}, {"a": src, "v": set(vals)})
+            else:
+                exec("a.%s += v" % name, {}, {"a": src, "v": list(vals)})
         else:
             return "bad-op"
     out = observe_relations(info, sg, objs) + "|" + observe_fields(info, objs, classes_of)
